@@ -68,6 +68,12 @@ func eachTerm(c *core.Ctx, r *core.Result, p plan, f func(t *tm.Term)) {
 			return
 		}
 	}
+	// quirk pass (see tm.Op.QuirkOf)
+	for i, t := range tm.QuirkTerms() {
+		if c.Mine(base + int64(i)) {
+			f(t)
+		}
+	}
 }
 
 // confirm re-evaluates a failing state: a violation is only reported when
@@ -255,6 +261,18 @@ func report(r *core.Result, t *tm.Term, extra map[string]interface{}, eval func(
 	if !confirm(r, t, m, eval) {
 		minCache[pre] = ""
 		return false
+	}
+	if q := tm.FindQuirk(t); q != nil {
+		sib := tm.WithoutQuirks(t)
+		sib.FillTokensKeeping()
+		if keyOf(eval(sib)) != clause {
+			// the failure disappears with the quirk-free sibling: this is
+			// the documented quirk, keyed by clause and quirk op only.
+			k := clause + "|quirk:" + q.Name
+			minCache[pre] = k
+			r.Violate(k, textOf(m)+"\nterm: "+t.String()+"\n(the same term with "+q.QuirkOf+" instead of "+q.Name+" passes)", map[string]interface{}{"term": t, "expr": t.String()})
+			return false
+		}
 	}
 	mt := minimize(t, clause, eval)
 	k := clause + "|" + skeleton(mt)
